@@ -73,6 +73,22 @@ def run_tlc(ctx, tag, module, cfg_text, *, files=None, workers=1, simulate=None,
     return res
 
 
+def run_tlc_export(ctx, tag, *a, **kw):
+    """run_tlc for an exporting job: the CASE lines (large) are parked in a file until their batch is processed."""
+    r = run_tlc(ctx, tag, *a, **kw)
+    keep, n = [], 0
+    with open(ctx.scratch / f"cases-{tag}.txt", "w") as f:
+        for ln in r.text.splitlines():
+            if '<<"CASE", "' in ln:
+                f.write(ln + "\n")
+                n += 1
+            else:
+                keep.append(ln)
+    r.text = "\n".join(keep)
+    r.cases_file = ctx.scratch / f"cases-{tag}.txt"
+    return r
+
+
 def cfg_text(name, **subst):
     s = (SPEC / "cfg" / name).read_text()
     for k, v in subst.items():
@@ -494,6 +510,8 @@ def run_driver(ctx, drv, cases, tag):
     for ln in (d / "log.ndjson").read_text().splitlines():
         e = json.loads(ln)
         per[e["case"]][e["step"]] = e
+    if not os.environ.get("VERIF_KEEP"):
+        shutil.rmtree(d, ignore_errors=True)
     return per
 
 
@@ -577,6 +595,8 @@ def validate_chunks(ctx, evs, tag, nproc):
             at = chunks[i][min(r.consumed[0], len(chunks[i]) - 1)]
             raise MachineryError(f"trace validation stopped at event {r.consumed[0]} of {len(chunks[i])} ({tag}-{i}): {json.dumps(at)[:400]}\n" + r.tail(15))
         consumed += r.consumed[0]
+        if not os.environ.get("VERIF_KEEP"):
+            shutil.rmtree(r.dir, ignore_errors=True)
         ms = parse_prints(r.text, "MISMATCH")
         m = re.search(r'<<"REJECTED", (\d+)>>', r.text)
         uniq = {(x["case"], x["step"]): x for x in ms}
@@ -630,6 +650,179 @@ def trace_selftest(ctx, allc, per, byid, bad_cases):
     return {"corrupted_fields": sorted(picks), "rejected_exactly_those": True}
 
 
+def new_guard():
+    return {"failnow": 0, "panic_naming": 0, "nil_return": 0, "callback": 0, "cleanup_yes": 0, "cleanup_no": 0,
+            "variadic_slice_match": 0, "variadic_elem_match": 0, "once_exhausted": 0, "second_expectation": 0,
+            "nil_iface_arg_through_run": 0, "nil_iface_arg_through_rar_no_result": 0, "whole_provider_variadic_multi_unrolled": 0,
+            "whole_provider_variadic_multi_slice_mode": 0, "slice_form_provider_accepted_by_impl": 0, "slice_form_provider_refused_by_impl": 0,
+            "unmet_after_unexpected_call_failed_the_test": 0, "unmet_after_users_errorf": 0, "all_met_in_failed_test": 0}
+
+
+def count_guards(guard, cases, byid):
+    for c in cases:
+        k = byid[c["class"]]
+        for oi, o in enumerate(c["ops"]):
+            if o["op"] == "call":
+                e = o["expect"]
+                guard["failnow"] += e["kind"] == "failnow"
+                guard["panic_naming"] += e["kind"] == "panic" and e["names"]
+                guard["nil_return"] += e["kind"] == "values" and "V0" in e["vals"]
+                guard["callback"] += len(e["cbs"]) > 0
+                nil_if = o["matched"] > 0 and any(kk in ("iface", "any", "error") and x == "V0" for kk, x in zip(k["pk"], o["f"]))
+                guard["nil_iface_arg_through_run"] += nil_if and o["style"] in ("run", "runret")
+                guard["nil_iface_arg_through_rar_no_result"] += nil_if and o["style"] == "rar" and not k["rk"]
+                vm = k["vk"] != "none" and len(k["rk"]) > 1 and o["style"] in ("rar", "whole")
+                guard["whole_provider_variadic_multi_unrolled"] += vm and k["unroll"] == "true"
+                guard["whole_provider_variadic_multi_slice_mode"] += vm and k["unroll"] != "true"
+                guard["slice_form_provider_accepted_by_impl"] += o["style"] == "wslice" and o["impl"]["kind"] == "values"
+                guard["slice_form_provider_refused_by_impl"] += o["style"] == "wslice" and o["impl"]["kind"] == "panic"
+                guard["second_expectation"] += o["matched"] >= 2
+                if k["vk"] != "none" and o["matched"] > 0 and o["v"]:
+                    guard["variadic_elem_match" if k["unroll"] == "true" else "variadic_slice_match"] += 1
+            elif o["op"] == "cleanup":
+                before = c["ops"][:oi]
+                guard["cleanup_yes"] += o["expect"] == "yes"
+                guard["cleanup_no"] += o["expect"] == "no"
+                guard["unmet_after_unexpected_call_failed_the_test"] += o["expect"] == "yes" and any(q["op"] == "call" and q["matched"] == 0 for q in before)
+                guard["unmet_after_users_errorf"] += o["expect"] == "yes" and any(q["op"] == "usererrorf" for q in before)
+                guard["all_met_in_failed_test"] += o["expect"] == "no" and o["failed"]
+        calls = [o for o in c["ops"] if o["op"] == "call"]
+        for a, b in zip(calls, calls[1:]):
+            guard["once_exhausted"] += a["matched"] > 0 and b["matched"] != a["matched"] and (a["f"], a["v"], a["m"]) == (b["f"], b["v"], b["m"])
+
+
+def process_batch(ctx, st, cases, tag):
+    """Replay one batch of behaviours on the real mocks (own-file and shared-file), compare step by step with the
+    contract's exported expectation, let TLC judge the op log, record verdicts; nothing of the batch is kept."""
+    byid, thorough = st["byid"], st["thorough"]
+    israndom = bool(cases) and bool(cases[0].get("random"))
+    if not israndom:
+        count_guards(st["guard"], cases, byid)
+        st["seen_classes"] |= {c["class"] for c in cases}
+    live = [c for c in cases if c["class"] in st["alive_ids"]]
+    # the shared-file mocks get every behaviour that exercises the template (single-expectation mode, simulated and
+    # random histories); the pair / wide modes are about testify's ordering and run on the own-file mocks only
+    shared = []
+    for lay, names in sorted(ctx.layouts.items()):
+        for c in live:
+            if c["class"] in names and (c.get("random") or c.get("mode") in ("single", "sim")):
+                shared.append(dict(c, layout=lay))
+    allc = live + shared
+    if not allc:
+        return
+    st["batches"] += 1
+    st["random" if israndom else "live"] += len(live)
+    st["shared"] += len(shared)
+    t0 = time.time()
+    per = run_driver(ctx, st["drv"], allc, tag)
+    st["t_driver"] += time.time() - t0
+    ctx.cov["evaluations"] += len(allc)
+    st["nontrivial"] += sum(1 for c in allc if sum(1 for o in c["ops"] if o["op"] != "cleanup") >= 2)
+
+    py_bad = {}     # (case, step) -> observed, Python's step-wise comparison on the TLC-exported cases
+    for ci, c in enumerate(allc):
+        errs = [e for e in per[ci].values() if e["op"] == "error"]
+        if errs:
+            if any("no adapter" in e["error"] for e in errs):
+                raise MachineryError("driver: " + errs[0]["error"])
+            st["setup_errors"] += 1
+            k = byid[c["class"]]
+            sto = c["ops"][errs[0]["step"]] if errs[0]["step"] >= 0 else {}
+            ctx.violation({"kind": "setup-panicked", "style": sto.get("style", ""), **cls_sig(k)},
+                          {"class": k, "ops": c["ops"], "error": errs[0]})
+            continue
+        if c.get("random"):
+            continue
+        for si, o in enumerate(c["ops"]):
+            if o["op"] in ("expect", "usererrorf"):
+                continue
+            if si not in per[ci]:
+                raise MachineryError(f"driver log has no event for case {ci} step {si}")
+            got = project(o, per[ci][si])
+            if o["op"] == "call":
+                ok = reply_ok(o["expect"], got)
+                if ok and not reply_ok(o["impl"], got):
+                    st["drift"] += 1
+                    if st["drift"] <= 3:
+                        ctx.note("drift: code satisfies the contract but differs from the code-shaped layer: " + json.dumps({"class": c["class"], "op": o, "got": got})[:600])
+            else:
+                ok = cleanup_ok(o["expect"], got)
+                if ok and got["reported"] != o["impl"]:
+                    st["drift"] += 1
+            if not ok:
+                py_bad[(ci, si)] = got
+
+    # ---- TLC judges the op log.  thorough: every replayed case; quick: every random history, every case the
+    # step-wise comparison rejected, and a seeded sample of the rest (the step-wise comparison covers all of them)
+    t0 = time.time()
+    if thorough:
+        chosen = list(range(len(allc)))
+    else:
+        bad_cases = {ci for ci, _ in py_bad}
+        chosen = [ci for ci, c in enumerate(allc) if c.get("random") or ci in bad_cases
+                  or ctx.rng.random() < (0.05 if c.get("layout") else 0.2)]
+    sub = [allc[ci] for ci in chosen]
+    evs = trace_events(sub, [per[ci] for ci in chosen], byid)
+    for e in evs:
+        e["case"] = chosen[e["case"]]
+    # self-test of the trace specification on this very log (once per run): three accepted cases with one recorded
+    # field corrupted each (a returned value, the callback log, the cleanup report) must be rejected exactly there
+    st_fut = None
+    if st["selftest"] is None and not israndom:
+        st_fut = st["pool"].submit(trace_selftest, ctx, allc, per, byid, set(ci for ci, _ in py_bad))
+    mism, consumed = validate_chunks(ctx, evs, "tv-" + tag, 8)
+    if st_fut is not None:
+        st["selftest"] = st_fut.result()
+    st["t_tv"] += time.time() - t0
+    ctx.cov["traces_validated_against_impl"] += sum(1 for e in evs if e["op"] == "reset")
+    st["steps"] += sum(1 for e in evs if e["op"] in ("call", "cleanup"))
+    st["consumed"] += consumed
+    tlc_bad = {(m["case"], m["step"]): m for m in mism}
+    chosen_set = set(chosen)
+    exported_keys = {k for k in tlc_bad if not allc[k[0]].get("random")}
+    py_keys = {k for k in py_bad if k[0] in chosen_set}
+    if exported_keys != py_keys:
+        only_t = sorted(exported_keys - py_keys)[:3]
+        only_p = sorted(py_keys - exported_keys)[:3]
+        k0 = (only_t + only_p)[0]
+        dbg = {"ops": allc[k0[0]]["ops"][:k0[1] + 1], "tlc": tlc_bad.get(k0), "got": project(allc[k0[0]]["ops"][k0[1]], per[k0[0]][k0[1]])}
+        raise MachineryError("the trace specification and the step-wise comparison disagree on TLC-exported cases: "
+                             f"only TLC {only_t}, only step-wise {only_p}\n" + json.dumps(dbg)[:6000])
+    verdicts = dict(tlc_bad)
+    for (ci, si) in py_bad:
+        if (ci, si) not in verdicts:       # cannot happen (rejected cases are always validated); kept for safety
+            o = allc[ci]["ops"][si]
+            verdicts[(ci, si)] = {"style": o.get("style", ""), "expect": o["expect"], "impl": o["impl"], "dev": o.get("dev", "none")}
+    st["rejected"] += len(verdicts)
+    for (ci, si), m in sorted(verdicts.items()):
+        c = allc[ci]
+        k = byid[c["class"]]
+        o = c["ops"][si]
+        got = project(o, per[ci][si])
+        if o["op"] == "call":
+            sig = {"kind": "reply-mismatch", "op": "call", "style": m["style"], "expected": m["expect"]["kind"], "observed": got["kind"],
+                   "dev": m["dev"], "as_predicted": reply_ok(m["impl"], got), **cls_sig(k)}
+        else:
+            sig = {"kind": "cleanup-mismatch", "op": "cleanup", "expected": m["expect"], "observed": got["reported"],
+                   "test_had_failed": bool(o.get("failed")), **cls_sig(k)}
+        sig["layout"] = "shared-file" if c.get("layout") else "own-file"
+        if len(ctx.violations) > 100:
+            ctx.violation(sig, {"class": k, "step": si, "note": "details recorded for the first 100 violations only"})
+            continue
+        detail = {"class": k, "interface": iface_src([k]), "layout": c.get("layout", "own file"),
+                  "shared_file_order": sorted(ctx.layouts.get(c.get("layout"), {}).values()), "history": [{x: y for x, y in q.items() if x not in ("impl",)} for q in c["ops"][:si + 1]],
+                  "step": si, "contract_expects": m["expect"], "code_shaped_model_predicts": m["impl"], "real_mock_did": got,
+                  "raw": per[ci][si].get("reply"), "source": "random history" if c.get("random") else "TLC-exported transition",
+                  "how": "bin/check C03 regenerates the mock for this class with the working tree's mockery and replays the history"}
+        ctx.violation(sig, detail)
+    if len(ctx.cov["samples"]) < 4:
+        pick = [c for c in live if c.get("random") or any(o["op"] == "call" and o["expect"]["kind"] == "values" and o["expect"]["cbs"] for o in c["ops"])]
+        for c in pick[:: max(1, len(pick) // 2)][:2]:
+            ci = allc.index(c)
+            ctx.sample({"class": byid[c["class"]], "ops": [{k: v for k, v in o.items() if k not in ("impl", "dev", "matched")} for o in c["ops"]],
+                        "real": [project(o, per[ci][si]) for si, o in enumerate(c["ops"]) if si in per[ci]]})
+
+
 # --------------------------------------------------------------------------------------------- main
 def run(ctx):
     thorough = ctx.thorough()
@@ -656,31 +849,31 @@ def run(ctx):
     ids = sorted(byid)
     if not thorough:
         for gi, g in enumerate(split(ids, 3)):
-            jobs.append(("single", pool.submit(run_tlc, ctx, f"single{gi}", "TestifyMockGen",
+            jobs.append(("single", pool.submit(run_tlc_export, ctx, f"single{gi}", "TestifyMockGen",
                                                cfg_text("TestifyMock_quick.cfg", Classes="<- GenClasses"),
                                                files={"TestifyMockGen.tla": gen_module(g)}, timeout=600)))
         for gi, g in enumerate(split(pair_ids, 3)):
-            jobs.append(("pair", pool.submit(run_tlc, ctx, f"pair{gi}", "TestifyMockGen",
+            jobs.append(("pair", pool.submit(run_tlc_export, ctx, f"pair{gi}", "TestifyMockGen",
                                              cfg_text("TestifyMock_quickpair.cfg", Classes="<- GenClasses"),
                                              files={"TestifyMockGen.tla": gen_module(g)}, timeout=600)))
     else:
         for gi, g in enumerate(split(ids, 4)):
-            jobs.append(("single", pool.submit(run_tlc, ctx, f"single{gi}", "TestifyMockGen",
+            jobs.append(("single", pool.submit(run_tlc_export, ctx, f"single{gi}", "TestifyMockGen",
                                                cfg_text("TestifyMock_thorough.cfg", Classes="<- GenClasses"),
                                                files={"TestifyMockGen.tla": gen_module(g)}, timeout=2400, coverage=(gi == 0))))
         wide_ids = sorted(set(parse_prints(r0.text, "WIDE")) & set(byid))
         if len(wide_ids) < 10:
             raise MachineryError("no classes for the wide alphabets")
         for gi, g in enumerate(split(wide_ids, 4)):
-            jobs.append(("wide", pool.submit(run_tlc, ctx, f"wide{gi}", "TestifyMockGen",
+            jobs.append(("wide", pool.submit(run_tlc_export, ctx, f"wide{gi}", "TestifyMockGen",
                                              cfg_text("TestifyMock_thorough.cfg", Classes="<- GenClasses", Level="= 2", MaxCalls="= 1"),
                                              files={"TestifyMockGen.tla": gen_module(g)}, timeout=2400)))
         for gi, g in enumerate(split(ids, 3)):
-            jobs.append(("pair", pool.submit(run_tlc, ctx, f"pair{gi}", "TestifyMockGen",
+            jobs.append(("pair", pool.submit(run_tlc_export, ctx, f"pair{gi}", "TestifyMockGen",
                                              cfg_text("TestifyMock_quickpair.cfg", Classes="<- GenClasses"),
                                              files={"TestifyMockGen.tla": gen_module(g)}, timeout=2400)))
         for gi, g in enumerate(split(ids, 2)):
-            jobs.append(("sim", pool.submit(run_tlc, ctx, f"sim{gi}", "TestifyMockGen",
+            jobs.append(("sim", pool.submit(run_tlc_export, ctx, f"sim{gi}", "TestifyMockGen",
                                             cfg_text("TestifyMock_sim.cfg", Classes="<- GenClasses"),
                                             files={"TestifyMockGen.tla": gen_module(g)}, simulate="num=6000", depth=26,
                                             seed=ctx.seed * 10 + gi, timeout=2400)))
@@ -692,9 +885,11 @@ def run(ctx):
     if len(alive) < len(classes) // 2:
         raise MachineryError(f"only {len(alive)} of {len(classes)} classes produced a usable mock")
 
-    cases = []
-    modes = {}
+    st = {"byid": byid, "drv": drv, "alive_ids": alive_ids, "thorough": thorough, "pool": pool, "guard": new_guard(),
+          "modes": {}, "exported": 0, "live": 0, "shared": 0, "random": 0, "steps": 0, "consumed": 0, "rejected": 0, "drift": 0,
+          "setup_errors": 0, "nontrivial": 0, "seen_classes": set(), "selftest": None, "t_driver": 0.0, "t_tv": 0.0, "batches": 0}
     only = os.environ.get("C03_JOBS")      # development aid: restrict the TLC jobs that are used
+    pending = []
     for kind, fut in jobs:
         if only and kind not in only.split(","):
             fut.cancel()
@@ -707,202 +902,63 @@ def run(ctx):
             raise MachineryError(f"TLC failed on TestifyMock ({r.cfg}):\n" + r.tail())
         ctx.cov["states"] += r.distinct
         ctx.cov["transitions"] += r.generated
-        cs = parse_prints(r.text, "CASE")
-        modes[kind] = modes.get(kind, 0) + len(cs)
-        for c in cs:
-            c["mode"] = kind
-        cases += cs
         if thorough and r.cfg == "single0":
-            z = [ln for ln in r.coverage_zero() if re.search(r"<(Expect|Call|Cleanup|Init) ", ln)]
+            z = [ln for ln in r.coverage_zero() if re.search(r"<(Expect|Call|Cleanup|UserErrorf|Init) ", ln)]
             if z:
                 raise MachineryError("vacuous: spec actions never taken: " + "; ".join(z))
-    ctx.timing["tlc_wall"] = round(time.time() - t_tlc, 1)
-    exported = len(cases)
-    cases = dedupe_prefixes(cases)
-    # ---- vacuity guards on what TLC exported
-    guard = {"failnow": 0, "panic_naming": 0, "nil_return": 0, "callback": 0, "cleanup_yes": 0, "cleanup_no": 0,
-             "variadic_slice_match": 0, "variadic_elem_match": 0, "once_exhausted": 0, "second_expectation": 0,
-             "nil_iface_arg_through_run": 0, "nil_iface_arg_through_rar_no_result": 0, "whole_provider_variadic_multi_unrolled": 0,
-             "whole_provider_variadic_multi_slice_mode": 0, "slice_form_provider_accepted_by_impl": 0, "slice_form_provider_refused_by_impl": 0,
-             "unmet_after_unexpected_call_failed_the_test": 0, "unmet_after_users_errorf": 0, "all_met_in_failed_test": 0}
-    for c in cases:
-        k = byid[c["class"]]
-        for o in c["ops"]:
-            if o["op"] == "call":
-                e = o["expect"]
-                guard["failnow"] += e["kind"] == "failnow"
-                guard["panic_naming"] += e["kind"] == "panic" and e["names"]
-                guard["nil_return"] += e["kind"] == "values" and "V0" in e["vals"]
-                guard["callback"] += len(e["cbs"]) > 0
-                nil_if = o["matched"] > 0 and any(kk in ("iface", "any", "error") and x == "V0" for kk, x in zip(k["pk"], o["f"]))
-                guard["nil_iface_arg_through_run"] += nil_if and o["style"] in ("run", "runret")
-                guard["nil_iface_arg_through_rar_no_result"] += nil_if and o["style"] == "rar" and not k["rk"]
-                vm = k["vk"] != "none" and len(k["rk"]) > 1 and o["style"] in ("rar", "whole")
-                guard["whole_provider_variadic_multi_unrolled"] += vm and k["unroll"] == "true"
-                guard["whole_provider_variadic_multi_slice_mode"] += vm and k["unroll"] != "true"
-                guard["slice_form_provider_accepted_by_impl"] += o["style"] == "wslice" and o["impl"]["kind"] == "values"
-                guard["slice_form_provider_refused_by_impl"] += o["style"] == "wslice" and o["impl"]["kind"] == "panic"
-                guard["second_expectation"] += o["matched"] >= 2
-                if k["vk"] != "none" and o["matched"] > 0 and o["v"]:
-                    guard["variadic_elem_match" if k["unroll"] == "true" else "variadic_slice_match"] += 1
-            elif o["op"] == "cleanup":
-                guard["cleanup_yes"] += o["expect"] == "yes"
-                before = c["ops"][:c["ops"].index(o)]
-                guard["unmet_after_unexpected_call_failed_the_test"] += o["expect"] == "yes" and any(q["op"] == "call" and q["matched"] == 0 for q in before)
-                guard["unmet_after_users_errorf"] += o["expect"] == "yes" and any(q["op"] == "usererrorf" for q in before)
-                guard["all_met_in_failed_test"] += o["expect"] == "no" and o["failed"]
-                guard["cleanup_no"] += o["expect"] == "no"
-        calls = [o for o in c["ops"] if o["op"] == "call"]
-        for a, b in zip(calls, calls[1:]):
-            guard["once_exhausted"] += a["matched"] > 0 and b["matched"] != a["matched"] and (a["f"], a["v"], a["m"]) == (b["f"], b["v"], b["m"])
-    zero = [k for k, v in guard.items() if v == 0]
-    if zero:
-        raise MachineryError(f"vacuous: the exported behaviours never contain {zero}")
-    seen_classes = {c["class"] for c in cases}
-    if seen_classes != set(byid):
-        raise MachineryError(f"vacuous: no behaviour exported for classes {sorted(set(byid) - seen_classes)}")
-
+        cs = parse_prints(r.cases_file.read_text(), "CASE")
+        r.cases_file.unlink()
+        st["modes"][kind] = st["modes"].get(kind, 0) + len(cs)
+        st["exported"] += len(cs)
+        for c in cs:
+            c["mode"] = kind
+        if thorough:                        # one batch per TLC job keeps the memory bounded
+            process_batch(ctx, st, dedupe_prefixes(cs), r.cfg)
+        else:
+            pending += cs
+    ctx.timing["tlc_wall_incl_batches" if thorough else "tlc_wall"] = round(time.time() - t_tlc, 1)
+    if pending:
+        process_batch(ctx, st, dedupe_prefixes(pending), "all")
+    pending = None
     # ------------------------------------------------------------ 3. random long histories (judged by TLC only)
     n_rand, max_ops, max_exp = (60, 25, 4) if thorough else (6, 14, 3)
-    rcases = [random_history(ctx.rng, c, max_ops, max_exp) for c in alive for _ in range(n_rand)]
-
-    # ------------------------------------------------------------ 4. replay on the real mocks
-    live = [c for c in cases if c["class"] in alive_ids]
-    # the shared-file mocks get every behaviour that exercises the template (single-expectation mode, simulated and
-    # random histories); the pair / wide modes are about testify's ordering and run on the own-file mocks only
-    shared = []
-    for lay, names in sorted(ctx.layouts.items()):
-        for c in live + rcases:
-            if c["class"] in names and (c.get("random") or c.get("mode") in ("single", "sim")):
-                shared.append(dict(c, layout=lay))
-    if not shared and not ctx.violations:
+    process_batch(ctx, st, [random_history(ctx.rng, c, max_ops, max_exp) for c in alive for _ in range(n_rand)], "random")
+    # ---- vacuity guards on what TLC exported
+    zero = [k for k, v in st["guard"].items() if v == 0]
+    if zero:
+        raise MachineryError(f"vacuous: the exported behaviours never contain {zero}")
+    if st["seen_classes"] != set(byid):
+        raise MachineryError(f"vacuous: no behaviour exported for classes {sorted(set(byid) - st['seen_classes'])}")
+    if not st["shared"] and not ctx.violations:
         raise MachineryError("no behaviour replayed on shared-file mocks")
-    t0 = time.time()
-    allc = live + rcases + shared
-    per = run_driver(ctx, drv, allc, "all")
-    ctx.timing["driver"] = round(time.time() - t0, 1)
-    ctx.cov["evaluations"] += len(allc)
-
-    py_bad = {}     # (case, step) -> detail, Python's step-wise comparison on the TLC-exported cases
-    drift = 0
-    setup_errors = 0
-    for ci, c in enumerate(allc):
-        errs = [e for e in per[ci].values() if e["op"] == "error"]
-        if errs:
-            if any("no adapter" in e["error"] for e in errs):
-                raise MachineryError("driver: " + errs[0]["error"])
-            setup_errors += 1
-            k = byid[c["class"]]
-            st = c["ops"][errs[0]["step"]] if errs[0]["step"] >= 0 else {}
-            ctx.violation({"kind": "setup-panicked", "style": st.get("style", ""), **cls_sig(k)},
-                          {"class": k, "ops": c["ops"], "error": errs[0]})
-            continue
-        if c.get("random"):
-            continue
-        for si, o in enumerate(c["ops"]):
-            if o["op"] in ("expect", "usererrorf"):
-                continue
-            if si not in per[ci]:
-                raise MachineryError(f"driver log has no event for case {ci} step {si}")
-            got = project(o, per[ci][si])
-            if o["op"] == "call":
-                ok = reply_ok(o["expect"], got)
-                if ok and not reply_ok(o["impl"], got):
-                    drift += 1
-                    if drift <= 3:
-                        ctx.note("drift: code satisfies the contract but differs from the code-shaped layer: " + json.dumps({"class": c["class"], "op": o, "got": got})[:600])
-            else:
-                ok = cleanup_ok(o["expect"], got)
-                if ok and got["reported"] != o["impl"]:
-                    drift += 1
-            if not ok:
-                py_bad[(ci, si)] = got
-
-    # ------------------------------------------------------------ 5. TLC judges the op log
-    # thorough: every replayed case; quick: every random history, every case the step-wise comparison
-    # rejected, and a seeded sample of the rest (the step-wise comparison covers all of them)
-    t0 = time.time()
-    if thorough:
-        chosen = list(range(len(allc)))
-    else:
-        bad_cases = {ci for ci, _ in py_bad}
-        chosen = [ci for ci, c in enumerate(allc) if c.get("random") or ci in bad_cases
-                  or ctx.rng.random() < (0.05 if c.get("layout") else 0.2)]
-    sub = [allc[ci] for ci in chosen]
-    evs = trace_events(sub, [per[ci] for ci in chosen], byid)
-    for e in evs:
-        e["case"] = chosen[e["case"]]
-    # self-test of the trace specification on this very log: three accepted cases with one recorded field
-    # corrupted each (a returned value, the callback log, the cleanup report) must be rejected exactly there
-    st_fut = pool.submit(trace_selftest, ctx, allc, per, byid, set(ci for ci, _ in py_bad))
-    mism, consumed = validate_chunks(ctx, evs, "tv", 8)
-    ctx.cov["trace_spec_selftest"] = st_fut.result()
-    ctx.timing["trace_validation"] = round(time.time() - t0, 1)
-    ncases_validated = sum(1 for e in evs if e["op"] == "reset")
-    ctx.cov["traces_validated_against_impl"] += ncases_validated
-    tlc_bad = {(m["case"], m["step"]): m for m in mism}
-    chosen_set = set(chosen)
-    exported_keys = {k for k in tlc_bad if not allc[k[0]].get("random")}
-    py_keys = {k for k in py_bad if k[0] in chosen_set}
-    if exported_keys != py_keys:
-        only_t = sorted(exported_keys - py_keys)[:3]
-        only_p = sorted(py_keys - exported_keys)[:3]
-        k0 = (only_t + only_p)[0]
-        dbg = {"ops": allc[k0[0]]["ops"][:k0[1] + 1], "tlc": tlc_bad.get(k0), "got": project(allc[k0[0]]["ops"][k0[1]], per[k0[0]][k0[1]])}
-        raise MachineryError("the trace specification and the step-wise comparison disagree on TLC-exported cases: "
-                             f"only TLC {only_t}, only step-wise {only_p}\n" + json.dumps(dbg)[:6000])
-    verdicts = dict(tlc_bad)
-    for (ci, si) in py_bad:
-        if (ci, si) not in verdicts:       # cannot happen (rejected cases are always validated); kept for safety
-            o = allc[ci]["ops"][si]
-            verdicts[(ci, si)] = {"style": o.get("style", ""), "expect": o["expect"], "impl": o["impl"], "dev": o.get("dev", "none")}
-    nviol = 0
-    for (ci, si), m in sorted(verdicts.items()):
-        c = allc[ci]
-        k = byid[c["class"]]
-        o = c["ops"][si]
-        got = project(o, per[ci][si])
-        if o["op"] == "call":
-            sig = {"kind": "reply-mismatch", "op": "call", "style": m["style"], "expected": m["expect"]["kind"], "observed": got["kind"],
-                   "dev": m["dev"], "as_predicted": reply_ok(m["impl"], got), **cls_sig(k)}
-        else:
-            sig = {"kind": "cleanup-mismatch", "op": "cleanup", "expected": m["expect"], "observed": got["reported"], **cls_sig(k)}
-        sig["layout"] = "shared-file" if c.get("layout") else "own-file"
-        detail = {"class": k, "interface": iface_src([k]), "layout": c.get("layout", "own file"),
-                  "shared_file_order": sorted(ctx.layouts.get(c.get("layout"), {}).values()), "history": [{x: y for x, y in q.items() if x not in ("impl",)} for q in c["ops"][:si + 1]],
-                  "step": si, "contract_expects": m["expect"], "code_shaped_model_predicts": m["impl"], "real_mock_did": got,
-                  "raw": per[ci][si].get("reply"), "source": "random history" if c.get("random") else "TLC-exported transition",
-                  "how": "bin/check C03 regenerates the mock for this class with the working tree's mockery and replays the history"}
-        if ctx.violation(sig, detail):
-            nviol += 1
     # keep the replay files few but the signatures distinct
     if len(ctx.violations) > 20:
         seen, keep = set(), []
         for sig, det in ctx.violations:
-            s = json.dumps(sig, sort_keys=True)
-            if s not in seen:
-                seen.add(s)
+            sj = json.dumps(sig, sort_keys=True)
+            if sj not in seen:
+                seen.add(sj)
                 keep.append((sig, det))
         ctx.violations[:] = keep + [v for v in ctx.violations if v not in keep][:max(0, 20 - len(keep))]
 
     # ------------------------------------------------------------ evidence
-    steps = sum(1 for e in evs if e["op"] in ("call", "cleanup"))
-    ctx.cov["distinct_nontrivial"] = sum(1 for c in allc if sum(1 for o in c["ops"] if o["op"] != "cleanup") >= 2)
+    ctx.timing["driver"] = round(st["t_driver"], 1)
+    ctx.timing["trace_validation"] = round(st["t_tv"], 1)
+    ctx.cov["distinct_nontrivial"] = st["nontrivial"]
+    ctx.cov["trace_spec_selftest"] = st["selftest"]
     ctx.cov["rule"] = ("every Call/Cleanup transition TLC generated on TestifyMock.tla (one representative history each, prefixes merged) "
                        "+ seeded random histories; non-trivial = at least two operations before cleanup")
-    ctx.cov.update({"signature_classes": len(classes), "classes_replayed": len(alive), "tlc_exported_transitions": exported,
-                    "behaviours_replayed": len(live), "random_histories": len(rcases), "behaviours_replayed_on_shared_file_mocks": len(shared),
-                    "shared_files": {lay: len(n) for lay, n in ctx.layouts.items()}, "steps_judged_by_tlc": steps,
-                    "trace_events_consumed": consumed, "replies_rejected": len(verdicts), "exported_by_mode": modes,
-                    "vacuity": guard, "impl_drift_steps": drift, "setup_errors": setup_errors, "timing_s": ctx.timing})
-    pick = [c for c in live if any(o["op"] == "call" and o["expect"]["kind"] == "values" and o["expect"]["cbs"] for o in c["ops"])]
-    for c in (pick[:: max(1, len(pick) // 3)][:3] + rcases[:1]):
-        ci = allc.index(c)
-        ctx.sample({"class": byid[c["class"]], "ops": [{k: v for k, v in o.items() if k not in ("impl", "dev", "matched")} for o in c["ops"]],
-                    "real": [project(o, per[ci][si]) for si, o in enumerate(c["ops"]) if si in per[ci]]})
+    ctx.cov.update({"signature_classes": len(classes), "classes_replayed": len(alive), "tlc_exported_transitions": st["exported"],
+                    "behaviours_replayed": st["live"], "random_histories": st["random"], "behaviours_replayed_on_shared_file_mocks": st["shared"],
+                    "shared_files": {lay: len(n) for lay, n in ctx.layouts.items()}, "steps_judged_by_tlc": st["steps"],
+                    "trace_events_consumed": st["consumed"], "replies_rejected": st["rejected"], "exported_by_mode": st["modes"],
+                    "vacuity": st["guard"], "impl_drift_steps": st["drift"], "setup_errors": st["setup_errors"], "batches": st["batches"],
+                    "timing_s": ctx.timing})
     ctx.assumptions += [
         "testify v1.10.0 (pinned in go.mod) Arguments.Diff / findExpectedCall / checkExpectation transcribed into TestifyMock.tla and trusted",
         "small scope: per class <= 1 full-alphabet expectation x <= 2 calls (single), <= 2 plain expectations x <= 3 calls (pair); random histories <= %d ops" % max_ops,
+        "the recording TestingT has the testing.TB method surface (Failed() true after Errorf/FailNow); a test that has already failed is part of the histories",
+        "variadic matchers are registered by spread from one reused buffer per mock that is overwritten after every registration",
         "only mock.Anything and equal-value matchers; no Maybe/NotBefore/WaitUntil/After; sequential use",
         "parameter names that do not compile today (r0, tmpRet, _va, _mock, _e, ...) are C01's business and not used here"]
     return {"level": "model_checking", "exhaustive": False}
